@@ -5,6 +5,7 @@ import (
 	"encoding/binary"
 	"fmt"
 	"io"
+	"strconv"
 	"strings"
 
 	"github.com/tormoder/fit"
@@ -163,7 +164,13 @@ func (w *failWriter) Write(p []byte) (int, error) {
 
 // tablesDigest: the profile tables as seen through the read-only exports (they must never change at run time).
 func tablesDigest() string {
-	return fmt.Sprint(vx.Hash(fmt.Sprint(fit.VerifFields(), fit.VerifKnownMesgNums() == nil)))
+	h := uint64(1469598103934665603)
+	mix := func(v uint64) { h = (h ^ v) * 1099511628211 }
+	for _, f := range fit.VerifFields() {
+		mix(uint64(f.Mesg)<<32 | uint64(f.Slot)<<16 | uint64(f.Num))
+		mix(uint64(f.Sindex)<<32 | uint64(f.Raw)<<8 | uint64(f.Length))
+	}
+	return strconv.FormatUint(h, 16)
 }
 
 func encodeOp(name string, build func() *fit.File, big bool) poolOp {
